@@ -1,5 +1,5 @@
 SPECIFICATION Spec
-CONSTANTS MaxN = 3  MaxC = 3  FullN = 2  SampleK = 1  SampleSet = "q"  Variant = "planar"  AssertFaceConnectedSuffices = FALSE
+CONSTANTS MaxN = 2  MaxC = 2  FullN = 1  SampleK = 1  SampleSet = "n"  Variant = "planar"  AssertFaceConnectedSuffices = FALSE
 INVARIANT TypeOK
 INVARIANT XFastest
 INVARIANT RoundTrip
